@@ -85,20 +85,30 @@ def run_ls(ctx):
 
     # ---- R1: the composed machine, every predicate outcome ---------------------------------
     def r1(kind, mi, ms):
-        ctx.tlc(*M, workers=2, name="R1 LineSearch %s MaxIter=%d MaxSearch=%d" % (kind, mi, ms), coverage=True,
-                subst=dict(SPEC="SpecR1", KINDS='{"%s"}' % kind, WITHH="FALSE", MAXITER=mi, MAXSEARCH=ms, EMIT="FALSE"))
+        # MaxRuns = 2: the run is stopped anywhere (or fails) and the same LinesearchMethod / Linesearcher values are
+        # initialised again (ReInit); theorem ReInitIsStart
+        ctx.tlc(*M, workers=2, name="R1 LineSearch %s MaxIter=%d MaxSearch=%d, two runs on one value" % (kind, mi, ms), coverage=True,
+                subst=dict(SPEC="SpecR1", KINDS='{"%s"}' % kind, WITHH="FALSE", MAXITER=mi, MAXSEARCH=ms, MAXRUNS=2, EMIT="FALSE"))
     for kind in ("backtracking", "bisection", "morethuente"):
         thunks.append(lambda kind=kind: r1(kind, 4 if th else 3, 2))
 
     # ---- R2: LinesearchMethod against a scripted Linesearcher -------------------------------
-    def r2(withh, mi, ms):
-        cases = ctx.gen(*M, name="R2 gen LinesearchMethod behaviours H=%s MaxIter=%d" % (withh, mi),
-                        subst=dict(SPEC="Spec", KINDS='{"script"}', WITHH=withh, MAXITER=mi, MAXSEARCH=ms, EMIT="TRUE"))
-        ctx.replay(b, "linesearch", cases, [], name="R2 replay LinesearchMethod H=%s MaxIter=%d" % (withh, mi))
+    def r2(withh, mi, ms, runs=1):
+        tag = "H=%s MaxIter=%d MaxSearch=%d" % (withh, mi, ms) + (", %d runs on one value (reinit)" % runs if runs > 1 else "")
+        cases = ctx.gen(*M, name="R2 gen LinesearchMethod behaviours " + tag,
+                        subst=dict(SPEC="Spec", KINDS='{"script"}', WITHH=withh, MAXITER=mi, MAXSEARCH=ms, MAXRUNS=runs, EMIT="TRUE"))
+        ctx.replay(b, "linesearch", cases, [], name="R2 replay LinesearchMethod " + tag)
     thunks.append(lambda: r2("FALSE", 4, 3))
     thunks.append(lambda: r2("TRUE", 4 if th else 3, 3))
     if th:
         thunks.append(lambda: r2("FALSE", 5, 3))
+    # one LinesearchMethod value used for two runs: the first run stopped at EVERY place of the cycle (between a trial
+    # evaluation and Iterate, while the evaluation completing an accepted step is outstanding, after a MajorIteration)
+    # or failed, then Init again; the bounds count over both runs
+    thunks.append(lambda: r2("FALSE", 3, 3, runs=2))
+    thunks.append(lambda: r2("TRUE", 3, 2, runs=2))
+    if th:
+        thunks.append(lambda: r2("FALSE", 4, 2, runs=2))
 
     # ---- R3: real line searches ---------------------------------------------------------------
     # one trace file per (recording mode, Linesearcher kind, class of the run): a rejection names its class and
@@ -111,6 +121,13 @@ def run_ls(ctx):
                 thunks.append(lambda mode=mode, kind=kind, cls=cls: _r3(
                     ctx, b, "%s-%s-%s" % (mode, kind, cls), "optimize/LineSearchTrace.tla", "optimize/LineSearchTrace.cfg",
                     ["mode=" + mode, "per=%d" % per, "kind=" + kind, "class=" + cls], "%s:%s:%s" % (mode, kind, cls)))
+
+    # the same method / LinesearchMethod / Linesearcher values used for two runs (first run stopped by every small
+    # budget); finite objectives only, the Linesearcher configurations of the known finding C19-LS2 left out
+    for mode in ("direct", "min"):
+        thunks.append(lambda mode=mode: _r3(
+            ctx, b, "reuse-%s" % mode, "optimize/LineSearchTrace.tla", "optimize/LineSearchTrace.cfg",
+            ["reuse", "mode=" + mode, "per=%d" % (8 if th else 2), "class=finite"], "reuse:%s" % mode))
 
     # ---- FunctionConverge ---------------------------------------------------------------------
     F = "optimize/FunctionConverge.tla", "optimize/FunctionConverge.cfg"
